@@ -92,6 +92,22 @@ func newEff(w *World, cg *CallGraph) *effEngine {
 	return e
 }
 
+// reqPhaseParent: the enclosing function of a closure itself runs per request
+// (then its locals are request-local, e.g. the deferred recover closure of the dispatcher).
+func (e *effEngine) reqPhaseParent(f *ssa.Function) bool {
+	if f.Signature.Recv() != nil {
+		rt := types.TypeString(f.Signature.Recv().Type(), nil)
+		if rt == "*"+modPath+".Context" || rt == "*"+modPath+".responseWriter" {
+			return true
+		}
+	}
+	switch FuncName(f) {
+	case "(*Router).handleHTTPRequest", "(*Router).ServeHTTP", "(*Router).HandleContext", "(*Router).QuickMatch", "(*Router).match", "(*Router).Match":
+		return true
+	}
+	return false
+}
+
 func isNamedPtr(t types.Type, n *types.Named) bool {
 	if p, ok := t.Underlying().(*types.Pointer); ok {
 		t = p.Elem()
@@ -213,6 +229,11 @@ func (e *effEngine) classify1(v ssa.Value) (class, string) {
 		}
 		return res, why
 	case *ssa.FreeVar:
+		// a handler-shaped closure built by a registration-time constructor runs once per request,
+		// but what it captured exists once: captured state is shared between all requests
+		if cl := x.Parent(); cl != nil && isHandlerShaped(cl) && cl.Parent() != nil && !isHandlerShaped(cl.Parent()) && !e.reqPhaseParent(cl.Parent()) {
+			return cShared, "variable " + x.Name() + " captured when the handler was constructed (one instance for all requests)"
+		}
 		if b := freeVarBinding(x); b != nil {
 			return e.classify(b)
 		}
